@@ -536,16 +536,18 @@ pub fn arb_range_edge_zone() -> SBoxedStrategy<MZone> {
 
 /// Zones with many (9..14) local time types, every transition using another one.
 pub fn arb_many_types_zone() -> SBoxedStrategy<MZone> {
-    (9usize..14, -1_000_000_000i64..1_000_000_000, proptest::collection::vec((3600i64..40_000_000, -50_400i32..50_400), 14))
-        .prop_map(|(n, t0, steps)| {
+    // 9..14 types, or (one case in five) 257..=300 types: more than a one-byte index / a 256-slot table can address
+    (prop_oneof![4 => 9usize..14, 1 => 257usize..=300], -1_000_000_000i64..1_000_000_000, proptest::collection::vec((3600i64..40_000_000, -50_400i32..50_400), 14), any::<bool>())
+        .prop_map(|(n, t0, steps, rev)| {
             let mut types = vec![];
             let mut trans = vec![];
             let mut t = t0;
             for k in 0..n {
-                types.push(MLtt { off: steps[k].1, dst: k % 2 == 1, name: Some(format!("Y{k:02}")) });
+                let st = steps[k % 14];
+                types.push(MLtt { off: st.1 + (k / 14) as i32 * 60, dst: k % 2 == 1, name: Some(if n < 100 { format!("Y{k:02}") } else { format!("Y{k:03}") }) });
                 if k > 0 {
-                    t += steps[k].0;
-                    trans.push((t, k));
+                    t += if n < 100 { st.0 } else { st.0 / 16 };
+                    trans.push((t, if rev { n - k } else { k }));
                 }
             }
             MZone { trans, types, leaps: vec![], trailer: MTrailer::None }
